@@ -27,6 +27,7 @@ import YarlProofs.C02Tokens
   Continued further in C02HeadlineMore2.lean (C02More.lean's lemma library imports C02HeadlineMore.lean): which path
   segments survive dot-segment removal under an authority (GAPS 2, open half) and C02 at URL level for build, every
   text-accepting modifier, `/`, joinpath, the query operations and join (GAPS 3).
+  Continued in C02HeadlineMore3.lean (C06More2.lean, added later): user / password of `build(authority=…)` (GAPS 3).
 -/
 set_option linter.unusedVariables false
 namespace Yarl
@@ -242,7 +243,7 @@ GAPS:
     intended behaviour (C15).  WHAT REMAINS: the theorems say THAT the stored segments are such a subsequence, not WHICH
     subsequence (that is `normalize_path_segments` = RFC 3986 5.2.4, property C15: C15_rfc); the segment count does
     change there (C02_headline_constructor_path_segments_fails_for_dot_segments), "never change[s]" is to be read modulo C15.
- 3. CLOSED (except `build(authority=…)`) by C01_with_user_reads_back, C01_with_password_reads_back (C01Str.lean) and
+ 3. CLOSED (`build(authority=…)`: PARTLY CLOSED, see the end of this item) by C01_with_user_reads_back, C01_with_password_reads_back (C01Str.lean) and
     C02_build_user_password, C02_build_path, C02_build_query_string, C02_build_query_pairs, C02_build_fragment,
     C02_with_user, C02_with_password, C02_with_fragment, C02_with_path, C02_with_name(_rejects_slash), C02_with_suffix,
     C02_joinpath, C02_with_query_string / _pairs, C02_extend_query_string / _pairs, C02_update_query_pairs / _string,
@@ -267,9 +268,23 @@ GAPS:
     the base or the reference, "" or "/".  SIDE CONDITION the module reports: join needs a ROOTED base (a path next to an
     authority is empty or starts with '/') — automatic for every base reachable through the auto-encoding API
     (C02_join_segments_reachable), only violated by `encoded=True` bases:
-    C02_headline_join_fails_for_rootless_base_under_authority.  STILL OPEN: `build(authority=…)` (its user / password are
-    QUOTER-quoted like `build(user=…)`, no theorem); `encoded=True` calls (nothing is encoded there); list-valued
-    mappings for update_query (`SingleValued` is assumed there; C12 has them).
+    C02_headline_join_fails_for_rootless_base_under_authority.
+    `build(authority=A)`: PARTLY CLOSED by C06_build_authority_readback (C06More2.lean + Lemmas/Readback2.lean, written
+    for C06), see C02_headline_build_authority_user_password (C02HeadlineMore3.lean; a composition with
+    C02_gen_decode_QUOTER).  Proved, for `build(encoded=False, authority=A)`: raw_user / raw_password are the QUOTER
+    output of the userinfo texts `split_netloc(A)` reads (user `None` when that output is empty), each percent-decodes to
+    the UTF-8 bytes of the supplied text, and `user` / `password` return the supplied texts (lone surrogates excepted) —
+    the userinfo of `authority=` is DECODED text like `build(user=…)`: a supplied "%41" is stored "%2541"
+    (C06_build_authority_not_percent_decoded; the constructor on the same text requotes instead).  Hypotheses: `A` is
+    a Python string; `split_netloc(A)` succeeds with a host text that is `HostTextOK` (supported ASCII kinds: name /
+    IPv4 text of visible ASCII without `/ ? # @ [ ] :`, or IPv6 literal with optional zone id); a host that is no IPv6
+    literal is not written in brackets.  STILL OPEN for `build(authority=…)`: IDN / non-ASCII / IPvFuture / bracketed
+    non-IPv6 hosts and a missing host (the proof goes through the shape of the stored authority, established for the
+    supported host kinds only).  (The host of `authority=` is not a C02 clause: C16; its read-back is
+    C06_headline_build_authority_host_readback, C06HeadlineMore3.lean.)
+    STILL OPEN otherwise: `encoded=True` calls (nothing is encoded there; what is stored: C07Encoded.lean,
+    C07_headline_build_encoded_true_verbatim, C07HeadlineMore3.lean); list-valued mappings for update_query
+    (`SingleValued` is assumed there; C12 has them).
  4. CLOSED by C12_parseQsl_requote (C12More.lean), see C02_headline_query_parse_qsl (C02HeadlineMore.lean).  Proved:
     `parseQsl (Gen.QUERY_REQUOTER.run b s) = parseQsl s` for `PyStr s`, `NoSurrogate s` (text-level decoding with
     errors='replace' included), and at URL level `queryPairs u = parseQsl p.query` for a constructed URL (`p.query` the
